@@ -201,7 +201,7 @@ func codecLevel(run *ev.Run, set *bridge.Set, rng *rand.Rand, perType int) {
 			collectPaths(s, t, v, nil, &paths, 0)
 			var usable [][]string
 			for _, p := range paths {
-				if validSpecPath(p) && p[len(p)-1] != "*" {
+				if validSpecPath(p) { // a terminal "*" only ever stands for the entries of a map here (collectPaths never ends a path at array items)
 					usable = append(usable, p)
 				}
 			}
